@@ -24,6 +24,10 @@ type fsm struct {
 	// the bgp ID received in the latest open message
 	remoteID uint32
 
+	// an error that could not be reported to the peer because the peer
+	// stopped this fsm first; read by the peer after the fsm has finished
+	unreportedErr error
+
 	// conn-related fields
 	conn         net.Conn
 	dialResultCh chan *dialResult
@@ -183,6 +187,9 @@ func (f *fsm) run() {
 			// if an error occurred we signal it to the peer
 			select {
 			case <-f.closeCh:
+				// the peer stopped this fsm before taking the error, it
+				// collects the error once the fsm has finished
+				f.unreportedErr = err
 				t = newStateTransition(t.to, disabledState)
 			case f.peer.getFSMErrorCh(f) <- err:
 				t = newStateTransition(t.to, desired)
